@@ -1567,8 +1567,9 @@ func (g Gateway) AreKeysExist(_ context.Context, in *hydrapb.AreKeysExistRequest
 
 	defer handlePanic()
 
-	// validate the swamp name
-	swampName, err := checkSwampName(g.ZeusInterface, in.GetIslandID(), in.SwampName, true)
+	// validate the swamp name; a missing swamp is not an error here (all keys are reported as
+	// non-existent below, as documented in the proto)
+	swampName, err := checkSwampName(g.ZeusInterface, in.GetIslandID(), in.SwampName, false)
 	if err != nil {
 		return nil, err
 	}
